@@ -123,9 +123,50 @@ def r3_entry_slot(ctx):
     stores = [(b, i) for (b, i, st) in [(b, i, st) for b in sorted(p.reachable()) for i, st in enumerate(p.stmts(b))]
               if st['k'] == 'assign' and any(e['k'] == 'index' for e in st['p']['pr'])]
     guarded = all(any(a[0] == 'bool' and a[1][0] == 'call' and a[1][1].endswith('::is_none') and a[2] is True for _, a in p.guard_atoms(b)) for b, i in stores)
+    if first is None:
+        # equivalent form: `connections.iter_mut().find(|slot| slot.is_none())` and a store through the found slot
+        for s in p.calls():
+            if s.callee != 'std::iter::Iterator::find' or len(s.args) != 2:
+                continue
+            it = peel(p.expr_operand(s.args[0], s.b, 'T'))
+            cl = peel(p.expr_operand(s.args[1], s.b, 'T'))
+            fwd = it[0] == 'call' and it[1].endswith('slice::iter_mut') and receiver_field(it[2][0]) == 'connections'
+            pred = False
+            if cl[0] == 'agg' and str(cl[1]).startswith('closure:'):
+                g = ctx.P.fns.get(cl[1][len('closure:'):])
+                rts = [peel(t) for _, t in ret_trees(g)] if g else []
+                pred = bool(rts) and all(t[0] == 'call' and t[1].endswith('Option::is_none') and any(x[0] == 'arg' and x[1] == 2 for x in walk(t)) for t in rts)
+            if fwd and pred:
+                first = 0
+                stores = []
+                for b in sorted(p.reachable()):
+                    for i, st in enumerate(p.stmts(b)):
+                        if st['k'] == 'assign' and st['p']['pr'] and st['p']['pr'][0]['k'] == 'deref' and len(st['p']['pr']) == 1:
+                            base = p.expr_local(st['p']['l'], b, i)
+                            if any(x[0] == 'call' and x[1].endswith('::find') and 'Iterator' in x[1] for x in walk(base)):
+                                stores.append((b, i))
+                guarded = bool(stores)
     ctx.check(entry == 1 and first == 0 and stores and guarded, 'entry-vs-first-slot',
               'the virtual entry connection uses slot 1 while put fills the first free slot starting at 0 (so next_hop of an endpoint finds its only peer)',
               f.where(), {'entry_slot': entry, 'first_filled': first, 'stores_guarded_by_is_none': guarded})
+
+
+def _peer_test(P, t):
+    """is the (canonical) boolean tree a test "this table already holds a connection to that gate"?  Either
+    Arc::ptr_eq(<con>.endpoint, g) or a search (`any`) over the table with a closure returning such a ptr_eq"""
+    if t[0] != 'call':
+        return False
+    if t[1].endswith('Arc::ptr_eq'):
+        return any(x[0] == 'field' and x[2] == 'endpoint' for x in walk(t))
+    if t[1].endswith('::any') and 'Iterator' in t[1]:
+        for a in t[2][1:]:
+            a = peel(a)
+            if a[0] == 'agg' and str(a[1]).startswith('closure:'):
+                g = P.fns.get(a[1][len('closure:'):])
+                rts = [peel(x) for _, x in ret_trees(g)] if g else []
+                if rts and all(x[0] == 'call' and x[1].endswith('Arc::ptr_eq') and any(y[0] == 'field' and y[2] == 'endpoint' for y in walk(x)) for x in rts):
+                    return True
+    return False
 
 
 def r4_peers(ctx):
@@ -152,8 +193,7 @@ def r4_peers(ctx):
         effs = path_effects(f, path)
         nput = sum(1 for e in effs if e[0] == 'c' and e[1].name == G + 'Connections::put')
         atoms = [a for _, a in path_atoms(f, path, decs)]
-        same = any(a[0] == 'bool' and a[1][0] == 'call' and a[1][1].endswith('Arc::ptr_eq') and a[2] is True and
-                   any(x[0] == 'field' and x[2] == 'endpoint' for x in walk(a[1])) for a in atoms)
+        same = any(a[0] == 'bool' and a[2] is True and _peer_test(ctx.P, a[1]) for a in atoms)
         if same:
             early = True
             ctx.check(nput == 0, 'idempotent', 'connecting an already connected pair changes nothing', f.where_path(path), nput)
@@ -161,7 +201,7 @@ def r4_peers(ctx):
             ctx.check(nput == 2, 'symmetric', 'a new connection is entered into both tables (symmetry)', f.where_path(path), nput)
     ctx.check(early, 'already-connected-check', 'connect detects an existing connection to the same peer', f.where())
     # idempotence comes first: the capacity assertion is only reached after the already-connected scan found nothing
-    scans = [s for s in f.calls() if s.name.endswith('Arc::ptr_eq') and any(x[0] == 'field' and x[2] == 'endpoint' for x in walk(f.expr_operand(s.args[0], s.b, 'T')))]
+    scans = [s for s in f.calls() if _peer_test(ctx.P, ('call', s.name, tuple(canon(f.expr_operand(a, s.b, 'T')) for a in s.args)))]
     cap_panics = []
     for s in f.calls():
         if s.is_diverging():
@@ -173,7 +213,10 @@ def r4_peers(ctx):
     if ctx.floor('already-connected scan in Gate::connect', len(scans), 1) and ctx.floor('capacity assertion in Gate::connect', len(cap_panics), 1):
         hdrs = [h for h in f.loops_containing(scans[0].b)]
         for cp in cap_panics:
-            ok = any(f.dominates(h, cp.b) and cp.b not in f.loops()[h] for h in hdrs)
+            if hdrs:
+                ok = any(f.dominates(h, cp.b) and cp.b not in f.loops()[h] for h in hdrs)
+            else:   # a single search call (`.any(..)`): it must have been evaluated, with a negative result, before the assertion
+                ok = f.dominates(scans[0].b, cp.b) and scans[0].b != cp.b
             ctx.check(ok, 'idempotence-before-capacity',
                       'the "at most two peers" assertion is evaluated only after the already-connected scan: re-connecting an existing pair is a no-op even when both gates are full',
                       cp.where())
